@@ -211,6 +211,53 @@ impl Stats {
 
 pub type Factory = Arc<dyn Fn(Arc<Stats>) -> Box<dyn Engine> + Send + Sync>;
 
+/// A *prover-side* deviation: the real prover is run on a deviated trace / statement, so the
+/// resulting object is consistent in every hash-based respect (Merkle openings, Fiat–Shamir
+/// transcript, proof of work) and only the algebraic checks (constraint/quotient identity,
+/// lookup terminals) can reject it. Complements single-leaf faults, which Fiat–Shamir makes
+/// trip a hash-based check first.
+#[derive(Clone, Debug, PartialEq, Eq, Hash)]
+pub enum Forge {
+    /// main-trace cell (instance, row, col) ← cell + 1, then prove
+    Cell { instance: usize, row: usize, col: usize },
+    /// public value ← value + 1 for prover *and* verifiers (a consistent false statement)
+    PublicValue { instance: usize, idx: usize },
+}
+
+impl Forge {
+    /// row abstracted
+    pub fn class(&self) -> String {
+        match self {
+            Forge::Cell { instance, col, .. } => format!("forged:trace_cell/instance{instance}/col{col}"),
+            Forge::PublicValue { instance, idx } => format!("forged:public_value/instance{instance}/{idx}"),
+        }
+    }
+    pub fn show(&self) -> String {
+        match self {
+            Forge::Cell { instance, row, col } => format!("forged:trace_cell/instance{instance}/row{row}/col{col}"),
+            Forge::PublicValue { instance, idx } => format!("forged:public_value/instance{instance}/{idx}"),
+        }
+    }
+    pub fn to_json(&self) -> Value {
+        match self {
+            Forge::Cell { instance, row, col } => json!({"cell": [instance, row, col]}),
+            Forge::PublicValue { instance, idx } => json!({"public_value": [instance, idx]}),
+        }
+    }
+    pub fn from_json(v: &Value) -> Option<Forge> {
+        let g = |a: &Value, i: usize| a.get(i).and_then(|x| x.as_u64()).map(|x| x as usize);
+        if let Some(a) = v.get("cell") {
+            return Some(Forge::Cell { instance: g(a, 0)?, row: g(a, 1)?, col: g(a, 2)? });
+        }
+        if let Some(a) = v.get("public_value") {
+            return Some(Forge::PublicValue { instance: g(a, 0)?, idx: g(a, 1)? });
+        }
+        None
+    }
+}
+
+pub type Forger = Arc<dyn Fn(&Forge) -> Result<Value, String> + Send + Sync>;
+
 /// One configuration: honest object + the two judges.
 pub struct Fixture {
     /// unique, stable: `<field>/<stark>/<pcs>/<air set>/<fri tag>`
@@ -222,6 +269,9 @@ pub struct Fixture {
     /// `{"proof": .., "public_values": .., "preprocessed_commit" | "common": ..}`
     pub honest: Value,
     pub stats: Arc<Stats>,
+    /// every prover-side deviation this fixture can produce (empty if none)
+    pub forge_space: Vec<Forge>,
+    forger: Option<Forger>,
     factory: Factory,
 }
 
@@ -231,7 +281,30 @@ thread_local! {
 
 impl Fixture {
     pub fn new(name: String, desc: Value, modulus: u64, ext_degree: usize, honest: Value, factory: Factory) -> Self {
-        Fixture { name, desc, modulus, ext_degree, honest, stats: Arc::new(Stats::default()), factory }
+        Fixture {
+            name,
+            desc,
+            modulus,
+            ext_degree,
+            honest,
+            stats: Arc::new(Stats::default()),
+            forge_space: vec![],
+            forger: None,
+            factory,
+        }
+    }
+
+    pub fn with_forger(mut self, space: Vec<Forge>, forger: Forger) -> Self {
+        self.forge_space = space;
+        self.forger = Some(forger);
+        self
+    }
+
+    /// Run the real prover on the deviated trace / statement and return the resulting tree
+    /// (same layout as `honest`). `Err` = the prover panicked or the deviation does not apply.
+    pub fn forge(&self, f: &Forge) -> Result<Value, String> {
+        let forger = self.forger.as_ref().ok_or("this fixture has no forger")?;
+        vpcore::quiet_catch(|| forger(f)).and_then(|r| r)
     }
 
     /// Runs `f` on this thread's engine under `quiet_catch`. The engine is taken out of the
